@@ -11,6 +11,7 @@ ap.add_argument("--tier", default="quick")
 ap.add_argument("--src")
 ap.add_argument("--name", default="")
 ap.add_argument("--also", default="", help="comma-separated other property ids to run too")
+ap.add_argument("--rebase", action="store_true", help="apply the seed's diff to a fresh scratch worktree of /repo's HEAD and evaluate there (the agents' worktrees may sit on an older commit)")
 ap.add_argument("--worktree", action="store_true", help="run the checks against the seeded worktree (VERIF_REPO/PYTHONPATH) instead of applying the patch to /repo")
 a = ap.parse_args()
 pid = a.pid
@@ -30,6 +31,22 @@ if not diff.strip():
     sys.exit("no change in " + src)
 open(os.path.join(dest, "patch.diff"), "w").write(diff)
 demo = [f for f in os.listdir(src) if f.startswith("demo_") and f.endswith(".py")]
+if a.rebase:
+    fresh = f"/tmp/seedwt/{pid}"
+    sh(f"git -C /repo worktree remove --force {fresh}")
+    os.makedirs("/tmp/seedwt", exist_ok=True)
+    rc, out = sh(f"git -C /repo worktree add --detach {fresh} HEAD")
+    if rc != 0:
+        sys.exit("cannot create scratch worktree: " + out)
+    rc, out = sh(f"git apply --3way {os.path.join(dest, 'patch.diff')}", cwd=fresh)
+    if rc != 0:
+        sh(f"git -C /repo worktree remove --force {fresh}")
+        sys.exit("seed does not apply to /repo HEAD: " + out)
+    sh("git reset -q", cwd=fresh)
+    for f in demo:
+        shutil.copy(os.path.join(src, f), os.path.join(fresh, f))
+    src = fresh
+    a.worktree = True
 meta = {"property": pid, "source": src, "demo": demo, "when": time.strftime("%Y-%m-%d %H:%M:%S")}
 ns = "unshare -n bash -c 'ip link set lo up; cd {d} && timeout 300 /venv/bin/python {f}'"
 for f in demo:
@@ -78,5 +95,7 @@ meta["checks_on_seeded_tree"] = results
 rc, out = sh("git status --short", cwd="/repo")
 meta["repo_clean_after"] = not out.strip()
 json.dump(meta, open(os.path.join(dest, "meta.json"), "w"), indent=1)
+if a.rebase:
+    sh(f"git -C /repo worktree remove --force {src}")
 # leave the generated Lean files as the unchanged tree's
 sh("/venv/bin/python -W ignore tools/regen.py", cwd=ROOT)
